@@ -161,20 +161,24 @@ def site_tolerance(ctx):
     R = sp.Rational
     X = [R(0), R(2), R(4), R(6)]
     n = 0
-    for gen in ('vacancy', 'substitutional', 'dumbbell', 'interstitial'):
+    for gen, U in [(g_, u_) for g_ in ('vacancy', 'substitutional', 'dumbbell', 'interstitial') for u_ in (sp.Integer(1), R(1, 10))]:
+        # U: the size of one angstrom in working units (1 by default; 1/10 when the working length unit is the nanometre): the default tolerance is 0.01 angstrom, whatever the working units
         fn = ctx.fn(PT, gen)
         loc = PT + '::' + gen
         for tag, delta, atol, near in (('4e-3 from an atom, default tolerance 1e-2', R(4, 1000), None, True), ('5e-2 from an atom, default tolerance 1e-2', R(5, 100), None, False),
                                        ('1.3 from an atom, atol=1.5 given (the next atom is 0.7 away: two atoms within the tolerance)', R(13, 10), R(3, 2), 'two'),
                                        ('0.9 from an atom (1.1 from the next), atol=1 given', R(9, 10), R(1), True), ('exactly on an atom', R(0), None, True)):
-            view = {'atype': arr([1, 2, 1, 2]), 'pos': np.array([[x_, R(1, 2), R(1, 3)] for x_ in X], dtype=object), 'charge': arr([R(1), R(2), R(3), R(4)])}
+            if U != 1 and atol is not None:
+                continue              # (an explicit tolerance is in working units already)
+            delta = delta * U
+            view = {'atype': arr([1, 2, 1, 2]), 'pos': np.array([[x_ * U, R(1, 2) * U, R(1, 3) * U] for x_ in X], dtype=object), 'charge': arr([R(1), R(2), R(3), R(4)])}
 
             class SysC(SystemM):
                 def dvect(self, p0, p1):
                     self.dv_calls.append((p0, p1))
                     return np.atleast_2d(np.asarray(p1, dtype=object)) - np.asarray(p0, dtype=object)
             system = SysC(box=BoxM(), pbc=np.array([False, False, False], dtype=object), atoms=AtomsM(view), symbols=('Al', 'Cu'))
-            pos = np.array([X[2] + delta, R(1, 2), R(1, 3)], dtype=object)
+            pos = np.array([X[2] * U + delta, R(1, 2) * U, R(1, 3) * U], dtype=object)
             kw = dict(pos=pos)
             if atol is not None:
                 kw['atol'] = atol
@@ -187,8 +191,10 @@ def site_tolerance(ctx):
             ev = SymEval(module_aliases(ctx.mod(PT)))
 
             class UC(PyStub):
-                def set_in_units(self, v, u):
-                    return sp.nsimplify(v)
+                def set_in_units(self, v, u, _U=U):
+                    if u != 'angstrom':
+                        raise Opaque('set_in_units(%r, %r)' % (v, u))
+                    return sp.nsimplify(v) * _U
             ev.globals = {'System': lambda **k: SysC(**k), 'deepcopy': _deep, 'uc': UC()}
             try:
                 paths = ev.run_fn(fn, [system], dict(kw))
@@ -210,8 +216,9 @@ def site_tolerance(ctx):
             else:
                 ok = outcome == 'refused'
                 want, what = 'refused', ('no atom within the tolerance: refused' if near is False else 'two atoms within the tolerance: refused')
-            ctx.ob('SITE', loc, 'position %s: %s' % (tag, what), bool(ok), 'the call is %s' % outcome, node=fn, key='tolerance %s %s' % (gen, tag[:30]))
-    ctx.floor('SITE/tolerance', n, 20)
+            ctx.ob('SITE', loc, 'position %s%s: %s' % (tag, '' if U == 1 else ' (lengths in angstrom; working length unit the nanometre)', what), bool(ok), 'the call is %s' % outcome, node=fn,
+                   key='tolerance %s %s %s' % (gen, tag[:30], U))
+    ctx.floor('SITE/tolerance', n, 32)
 
 
 def generators(ctx):
